@@ -254,7 +254,6 @@ def entryOK (F : Func) (env : Env) : Prop :=
     | .constz => ∃ x, env v = some (.sc x) ∧ okS (flagsOf F v) x ∧ isZero x
     | .constnz => ∃ x, env v = some (.sc x) ∧ okS (flagsOf F v) x ∧ outerNil x = false
     | .constother => ∃ x, env v = some (.sc x) ∧ okS (flagsOf F v) x
-    | .aggconst => ∃ x, env v = some (.sc x) ∧ okS (flagsOf F v) x
     | _ => env v = none
 
 /-- `Reach F cr b σ`: an execution of `F` arrives at the start of block `b` (after its phis)
